@@ -9,7 +9,7 @@ import Mdsort.Proofs.MainTextMacros
 import Mdsort.Proofs.MainTextLex
 import Mdsort.Proofs.MainTextLexTree
 import Mdsort.Proofs.ConfCfg4
-import Mdsort.Proofs.ConfAnywhere5
+import Mdsort.Proofs.ConfAnywhere6
 
 /-!
 # C14 - a configuration is accepted or rejected as a whole, and the parser is total
@@ -742,6 +742,38 @@ example :
       (Spec.render ([b].flatMap Spec.blockToks ++ (.kw .maildir :: Spec.strsToks ([[99]] ++ "~${x}".toUTF8.toList.tail :: [[101]]))) ++ body)) = true ∧
     Proofs.Conf.isOkNonempty (parseConfig [] [] (fun _ => true) (Spec.printBlocks ([b] ++ b1 :: ([b] ++ [b])))) = true ∧
     Proofs.Conf.isErrorAt 1 (parseConfig [] [] (fun _ => true) (Spec.printBlocks ([b] ++ b1 :: ([b] ++ b2 :: [b])))) = true := by
+  decide +kernel
+
+/-- The macro class stated on trees, for the positions that need no descent: a configuration written by
+`Spec.printBlocks` in which ONE string of ONE action holds a macro reference that cannot be expanded - the action being
+any of the six that take strings (`Spec.ActSite`; its leaf is `site.expr b`), at any place `as1 | as2` among the actions
+of a rule, the rule at any place `rs1 | rs2` among the rules of a block, the block at any place `pre | post` of the
+configuration - is rejected on line 1, provided what is written BEFORE the string is well formed (`hpos`: the blocks
+`pre` are a configuration of `Spec.ConfOK`, the paths can be written, the block is not a second `stdin` block, the rules
+`rs1`, the condition `c` and the actions `as1` are well formed).  Nothing is asked of `as2`, `rs2`, `post`.  (Strings in
+rules of nested blocks and of attachment blocks, in conditions and in paths: `C14_error_anywhere_rejects_file`.) -/
+theorem C14_error_action_string_rejects_file (home : Bytes) (rxOk : Pat → Bool) (pre post : List PBlock) (paths : List Bytes)
+    (rs1 rs2 : List CTree) (c : CTree) (as1 as2 : List CTree) (site : Spec.ActSite) (b : Bytes)
+    (hpos : ({ rp := { pre := pre, paths := paths, steps := rs1.map .rule }, cond := c, acts := as1 } : Spec.ActPos).ok rxOk = true)
+    (hsite : site.ok = true) (hb : Spec.BadRef site.action b) :
+    parseConfig home [] rxOk (Spec.printBlocks (pre ++
+      ⟨paths, Spec.blockOfRules (rs1 ++ Spec.ruleOfActs c (as1 ++ .leaf (site.expr b) :: as2) :: rs2)⟩ :: post)) = .error 1 :=
+  Proofs.Conf.action_string_file home rxOk pre post paths rs1 rs2 c as1 as2 site b hpos hsite hb
+
+/-- Non-vacuity: the second action of the second rule of the second block, `move "in${box}"`; with `move "in"` the
+configuration is in `Spec.ConfOK` and accepted. -/
+example :
+    let b0 : PBlock := ⟨[stdinStr], .block 1 (.mtch 1 (.leaf (.all 1)) (.leaf (.discard 1)))⟩
+    let r : CTree := .mtch 1 (.leaf (.new 1)) (.leaf (.pass 1))
+    let conf (b : Bytes) : List PBlock := [b0] ++
+      ⟨[[97]], Spec.blockOfRules ([r] ++ Spec.ruleOfActs (.leaf (.old 1)) ([.leaf (.brk 1)] ++ .leaf (Spec.ActSite.move.expr b) :: [.leaf (.pass 1)]) :: [r])⟩ :: [b0]
+    ({ rp := { pre := [b0], paths := [[97]], steps := [r].map .rule }, cond := .leaf (.old 1), acts := [.leaf (.brk 1)] } : Spec.ActPos).ok
+      (fun _ => true) = true ∧
+    Spec.printBlocks (conf "in${box}".toUTF8.toList) =
+      " stdin { match all discard } maildir { \"a\" } { match new pass match old break move \"in${box}\" pass match new pass } stdin { match all discard }".toUTF8.toList ∧
+    Spec.ConfOK (fun _ => true) ((conf "in".toUTF8.toList).take 2) = true ∧
+    Proofs.Conf.isOkNonempty (parseConfig [] [] (fun _ => true) (Spec.printBlocks ((conf "in".toUTF8.toList).take 2))) = true ∧
+    Proofs.Conf.isErrorAt 1 (parseConfig [] [] (fun _ => true) (Spec.printBlocks (conf "in${box}".toUTF8.toList))) = true := by
   decide +kernel
 
 end Mdsort.Props
